@@ -406,7 +406,6 @@ fn main() {
         // ---------------------------------------------------------------- bit helpers (mask: yes; software config forces the fallbacks)
         reg.add(Enum(bits::bitops_spec("entropy::bit_ops::BitOps[detected]", BitOps::new, EntropyBitOps::new)));
         reg.add(Enum(bits::bitops_spec("entropy::bit_ops::BitOps[software config]", || BitOps::with_config(bits::software_config()), || EntropyBitOps::with_config(bits::software_config()))));
-        reg.add(Enum(bits::dispatcher_spec("entropy::bit_ops::CompressionBmi2Dispatcher[detected]", CompressionBmi2Dispatcher::new)));
         reg.add(Enum(bits::dispatcher_spec("entropy::bit_ops::CompressionBmi2Dispatcher[optimizations off]", || {
             let mut c = bits::software_config();
             c.enable_compression_optimizations = false;
@@ -414,6 +413,8 @@ fn main() {
             c.enable_entropy_acceleration = false;
             CompressionBmi2Dispatcher::with_config(c)
         })));
+        // (registered after the software configuration: a known finding with subject `...Dispatcher*` is replayed on the first match)
+        reg.add(Enum(bits::dispatcher_spec("entropy::bit_ops::CompressionBmi2Dispatcher[detected]", CompressionBmi2Dispatcher::new)));
 
         // ---------------------------------------------------------------- histogram counting
         reg.add(Enum(bits::histogram_spec("entropy::fse::FseEncoder::analyze_frequencies[hardware.avx2=on]", true)));
